@@ -142,6 +142,8 @@ func (p *Program) InlineNewHelpers(baseline *Baseline) {
 		if len(in.Inlined) > 0 {
 			for _, fd := range p.AllFuncDeclsRaw(pkg) {
 				if !p.hidden[fd] {
+					// a tagged switch that came in with an inlined body is new to this function
+					in.norm.canonSwitch(fd, baseline.Tags[pkg.PkgPath+"."+FuncName(fd)])
 					in.norm.coalesceCopies(fd) // inside the inlined block, before `x := y; if …` can become an if with init
 					in.norm.canonShape(fd)
 					if in.norm.coalesceCopies(fd) {
